@@ -368,12 +368,15 @@ func deviate(t *rapid.T, m *MClaims, c Claim, literalOnly bool) {
 	switch c {
 	case CProfile:
 		if p == P1 {
-			m.Profile = sp(rapid.SampledFrom([]string{P2Name, "", "PSA_IOT_PROFILE_2", "psa_iot_profile_1", "http://example.com/x", "PSA_IOT_PROFILE_1 ", " PSA_IOT_PROFILE_1", "PSA_IOT_PROFILE_1\x00"}).Draw(t, "profile.bad"))
+			m.Profile = sp(rapid.SampledFrom([]string{P2Name, "", "PSA_IOT_PROFILE_2", "psa_iot_profile_1", "http://example.com/x", "PSA_IOT_PROFILE_1 ", " PSA_IOT_PROFILE_1", "PSA_IOT_PROFILE_1\x00",
+				// long wrong names (messages that echo them get long)
+				"PSA_IOT_PROFILE_1" + strings.Repeat("_X", 150), strings.Repeat("é", 200), "http://example.com/" + strings.Repeat("a", 1000)}).Draw(t, "profile.bad"))
 		} else {
 			if genBool.Draw(t, "profile.absent") {
 				m.Profile = nil
 			} else {
-				m.Profile = sp(rapid.SampledFrom([]string{"http://example.com/other", "http://arm.com/psa/2.0.1", "1.2.3.4", "http://arm.com/psa/2.0.0/", "HTTP://arm.com/psa/2.0.0", "Http://arm.com/psa/2.0.0", "http://arm.com/psa/2.0.0#", "http://arm.com/psa/2.0.0?", "http://ARM.com/psa/2.0.0", "http://arm.com:80/psa/2.0.0", "http://arm.com/psa/2.0.0 ", "http://arm.com/psa/2%2E0.0"}).Draw(t, "profile.bad"))
+				m.Profile = sp(rapid.SampledFrom([]string{"http://example.com/other", "http://arm.com/psa/2.0.1", "1.2.3.4", "http://arm.com/psa/2.0.0/", "HTTP://arm.com/psa/2.0.0", "Http://arm.com/psa/2.0.0", "http://arm.com/psa/2.0.0#", "http://arm.com/psa/2.0.0?", "http://ARM.com/psa/2.0.0", "http://arm.com:80/psa/2.0.0", "http://arm.com/psa/2.0.0 ", "http://arm.com/psa/2%2E0.0",
+					"http://arm.com/psa/2.0.0/" + strings.Repeat("x", 300), "http://example.com/" + strings.Repeat("é", 200), "urn:" + strings.Repeat("a", 1000)}).Draw(t, "profile.bad"))
 			}
 		}
 	case CClientID:
